@@ -315,6 +315,14 @@ pub fn graph_decode_at(bytes: &[u8], place: GraphPlace) -> Out<Decoded> {
     })
 }
 
+/// offers `n` to the stream from code compiled in *this* crate: a non-generic function is
+/// instantiated here whoever calls it, so the unsizing cast to `dyn Any` inside the library call
+/// is the one of this crate's copy of `store_ref_or_object::<Node>`
+#[inline(never)]
+pub fn offer_node_from_bridge(n: &Node, ctx: &mut SerializationContext<Vec<u8>>) -> Result<bool> {
+    ctx.store_ref_or_object(n)
+}
+
 pub fn graph_encode(g: &Graph) -> Out<Vec<u8>> {
     guarded(|| desert::serialize_to_byte_vec(g)).0
 }
